@@ -29,6 +29,7 @@ def parseOp (t : String) : Option Op :=
   | ["K", i, n] => do some (.setClip32 (← i.toNat?) (← optNat n))
   | ["k", i, n] => do some (.setClip16 (← i.toNat?) (← optNat n))
   | ["D", i, f, d] => do some (.setDestroy (← i.toNat?) ((← f.toNat?) != 0) (← d.toNat?))
+  | ["I", i, p] => do some (.setIndexed (← i.toNat?) (← optNat p))
   | ["GC"] => some .cacheCreate
   | ["GD"] => some .cacheDestroy
   | ["GF"] => some .cacheFreeze
@@ -52,13 +53,13 @@ def obs (h : Heap) (i : Nat) : String :=
   s!"{i}={im.refCount},{im.alphaCount},{am},{amrc},{amac},{ox},{oy},{tv},{im.filter}," ++
   s!"{b01 im.filterParams.ptr.isSome},{im.nFilterParams},{b01 im.haveClip},{cs},{im.clipRects}," ++
   s!"{b01 im.destroyFunc},{im.destroyData},{b01 (im.kind == .bits && im.freeMe.ptr.isSome)}," ++
-  s!"{b01 (im.kind != .bits && im.kind != .solid && im.stops.ptr.isSome)}"
+  s!"{b01 (im.kind != .bits && im.kind != .solid && (match im.stopsForeign with | none => im.stops.ptr.isSome | some q => q.isSome))}"
 
 def involved : Op → Res → List Nat
   | _, .refused => []
   | _, .created id => [id]
   | .ref i, _ | .unref i, _ | .setTransform i _, _ | .setFilter i _ _, _ | .setClip32 i _, _
-  | .setClip16 i _, _ | .setDestroy i _ _, _ | .cacheInsert _ i, _ => [i]
+  | .setClip16 i _, _ | .setDestroy i _ _, _ | .setIndexed i _, _ | .cacheInsert _ i, _ => [i]
   | .setAlphaMap i (some m) _ _, _ => if m = i then [i] else [i, m]
   | .setAlphaMap i none _ _, _ => [i]
   | _, _ => []
@@ -97,7 +98,7 @@ def handle (line : String) : String :=
         | some c => s!"{c.freeze}:{c.entries.length}"
         | none => "-"
       " ".intercalate outs ++ " | " ++ " ".intercalate held ++
-        s!" | live={h.liveBlocks} uaf={h.uaf} stuck={h.stuck} badfree=0 cache={cache}"
+        s!" | live={h.liveBlocks} uaf={h.uaf} stuck={h.stuck} badfree={((List.range h.nimg).map fun i => (h.img i).badFrees).sum} cache={cache}"
     | none => "bad-op"
   | _ => "bad-op"
 
